@@ -28,11 +28,11 @@ view == <<reg, ptr, links, dup, db, active, last>>
 
 Init == /\ reg = {} /\ ptr = [a \in Agents |-> None] /\ links = [a \in Agents |-> {}]
         /\ dup = FALSE /\ db = {} /\ active = [a \in Agents |-> FALSE]
-        /\ last = [op |-> "none", a |-> None, c |-> None, done |-> TRUE]
+        /\ last = [op |-> "none", a |-> None, c |-> None, done |-> TRUE, kept |-> TRUE]
         /\ hist = <<>>
 
 Log(op, a, c, k) == hist' = Append(hist, [op |-> op, a |-> a, c |-> c, k |-> k])
-Did(op, a, c) == last' = [op |-> op, a |-> a, c |-> c, done |-> TRUE]
+Did(op, a, c) == last' = [op |-> op, a |-> a, c |-> c, done |-> TRUE, kept |-> TRUE]
 
 RECURSIVE Ancestors(_, _)
 Ancestors(a, n) == IF n = 0 \/ ptr[a] = None THEN {} ELSE {ptr[a]} \cup Ancestors(ptr[a], n - 1)
@@ -84,10 +84,22 @@ Died(a, k) ==
     /\ UNCHANGED <<reg, dup>>
     /\ Did("Died", a, None) /\ Log("Died", a, None, k)
 
+(* the teamserver stops and starts again on its database: the sessions that were active come back (dead and disconnected ones do
+   not), the forest is rebuilt from TS_Links.  What comes back is the forest as it was, among the sessions that came back *)
+Restart ==
+    /\ \A p \in reg : (links[p] # {} \/ ptr[p] # None) => active[p]      \* (a disconnected pivot that still holds its subtree: what a restart makes of
+                                                      \*  that subtree - the sessions come back without their parent - is left open here)
+    /\ reg' = {a \in reg : active[a]}
+    /\ links' = [p \in Agents |-> IF p \in reg' THEN {c \in links[p] : c \in reg'} ELSE {}]
+    /\ ptr' = [c \in Agents |-> IF c \in reg' /\ ptr[c] # None /\ ptr[c] \in reg' THEN ptr[c] ELSE None]
+    /\ active' = [a \in Agents |-> a \in reg']
+    /\ dup' = FALSE /\ UNCHANGED db
+    /\ Did("Restart", None, None) /\ Log("Restart", None, None, "")
 Next == /\ Len(hist) < MaxOps
         /\ \/ \E a \in Agents : Register(a)
            \/ \E p, c \in Agents : Connect(p, c) \/ Disconnect(p, c)
            \/ \E a \in Agents, k \in {"exit", "killdate", "mark"} : Died(a, k)
+           \/ (Restart /\ \A i \in 1..Len(hist) : hist[i].op # "Restart")
 
 Spec == Init /\ [][Next]_vars
 -----------------------------------------------------------------------------
@@ -105,5 +117,6 @@ DiedDetaches == last.op = "Died" => /\ last.done
                                     /\ \A p \in Agents : last.a \notin links[p]
                                     /\ ptr[last.a] = None
 Completes == last.done
+RestartKeeps == last.kept       \* (trace side: the restored forest is the forest before, among the restored sessions)
 TypeOK == /\ reg \subseteq Agents /\ \A a \in Agents : ptr[a] \in Agents \cup {None} /\ links[a] \subseteq Agents
 =============================================================================
